@@ -74,6 +74,7 @@ def run_case(world, defs_yaml, wf_name, wf_input, oracle, rng, policy='random', 
     oi = 0
     step = 0
     dup_budget = 3
+    polls = 0
     while step < max_steps:
         while oi < len(ops) and ops[oi]['at'] <= step:
             apply_op(world, tr, ops[oi], root)
@@ -92,6 +93,19 @@ def run_case(world, defs_yaml, wf_name, wf_input, oracle, rng, policy='random', 
                 # nothing to deliver: remaining operator commands fire now
                 apply_op(world, tr, ops[oi], root)
                 oi += 1
+                continue
+            # jobs that exist only in the store (their scheduler instance was restarted) are picked
+            # up by the store poller once pickup_job_after has elapsed
+            snap = tr.events[-1][1] or world.snapshot()
+            stored = [j for j in snap['jobs'] if not j[0].endswith('_check_and_fix_integrity') and not j[3]]
+            if stored and polls < 8:
+                from oslo_config import cfg
+                polls += 1
+                due = max(j[2] for j in stored) + cfg.CONF.scheduler.pickup_job_after + 1
+                if due > world.clock:
+                    world.tick(due - world.clock)
+                world.poll_store()
+                tr.events.append([['poll'], world.snapshot()])
                 continue
             break
         it = pick(rng, policy, en)
@@ -366,7 +380,12 @@ def outcome(snap, root_ord=None):
     w = snap['wfs'][0]
     tasks = sorted([[t['name'], t['state'], t['published']] for t in snap['tasks'] if t['wf'] == w['ord']],
                    key=lambda x: json.dumps(x, sort_keys=True))
-    return {'state': w['state'], 'tasks': tasks, 'output': strip_internal(w['output'])}
+    out = strip_internal(w['output'])
+    if w['state'] in ('ERROR', 'CANCELLED') and isinstance(out, dict) and 'result' in out:
+        # the diagnostic message of a failed / cancelled run (which tasks were known to block a join
+        # at the moment it failed, tracebacks, ids) is not part of the prescribed outcome
+        out = dict(out, result='<message>')
+    return {'state': w['state'], 'tasks': tasks, 'output': out}
 
 
 def strip_internal(ctx):
